@@ -468,6 +468,15 @@ func simplifyPhis(newPhis BlockMap[[]newPhi]) {
 			}
 		}
 	}
+
+	// 'live' meant 'replaced' in the loop above. Reset it, so that the dead
+	// phi pass sees the replaced phis (which have no referrers left) as dead
+	// and removes them together with the phis that only they referred to.
+	for _, npList := range newPhis {
+		for _, np := range npList {
+			np.phi.live = false
+		}
+	}
 }
 
 type BlockSet struct {
